@@ -309,11 +309,18 @@ def gen_timecorr(repo):
     # normalisation
     nrm = body[pos]
     pos += 1
-    if not (isinstance(nrm, ast.AugAssign) and isinstance(nrm.op, ast.Div) and u(nrm.target) == "results"
-            and isinstance(nrm.value, ast.Subscript) and u(nrm.value.value) == "results"
-            and isinstance(nrm.value.slice, ast.Constant) and isinstance(nrm.value.slice.value, int) and nrm.value.slice.value >= 0):
+    # `results /= results[K]` or, equivalently for the model (which divides out of place), `results = results / results[K]`
+    if isinstance(nrm, ast.Assign) and len(nrm.targets) == 1 and u(nrm.targets[0]) == "results" and isinstance(nrm.value, ast.BinOp) \
+            and isinstance(nrm.value.op, ast.Div) and u(nrm.value.left) == "results":
+        den = nrm.value.right
+    elif isinstance(nrm, ast.AugAssign) and isinstance(nrm.op, ast.Div) and u(nrm.target) == "results":
+        den = nrm.value
+    else:
         raise Unrecognised(f"normalisation `{u(nrm)[:60]}`")
-    norm_index = nrm.value.slice.value
+    if not (isinstance(den, ast.Subscript) and u(den.value) == "results"
+            and isinstance(den.slice, ast.Constant) and isinstance(den.slice.value, int) and den.slice.value >= 0):
+        raise Unrecognised(f"normalisation `{u(nrm)[:60]}`")
+    norm_index = den.slice.value
     # time axis and columns
     stk = body[pos]
     pos += 1
